@@ -265,6 +265,7 @@ func (fx *FnExec) loopEnter(st *State, fr *frame, h *loopHdr, b, pred *ssa.Basic
 		}
 	}
 	// havoc
+	vacPre := len(st.pc)
 	entryVals := map[*ssa.Phi]Term{}
 	for _, ins := range b.Instrs {
 		phi, ok := ins.(*ssa.Phi)
@@ -326,8 +327,7 @@ func (fx *FnExec) loopEnter(st *State, fr *frame, h *loopHdr, b, pred *ssa.Basic
 		}
 	}
 	na := fx.freshConst("alloc@loop", "Int")
-	st.assume("(>= " + na + " " + st.alloc + ")")
-	st.alloc = na
+	st.bumpAlloc(na)
 	// thread-local counters stay natural numbers
 	for _, name := range sortedKeys(mods) {
 		if !strings.HasPrefix(name, "ghost.") {
@@ -406,6 +406,7 @@ func (fx *FnExec) loopEnter(st *State, fr *frame, h *loopHdr, b, pred *ssa.Basic
 			}
 			st.assume(v.t)
 		}
+		fx.vacuityStep(st, fr, fmt.Sprintf("loop%d", h.ord), vacPre)
 		for i, c := range spec.Decreases {
 			v, err := env.safeEval(c.Expr)
 			if err != nil {
